@@ -247,7 +247,7 @@ func randIP(r *gen.Rand) net.IP {
 // step applies one random building operation. Returns false to stop the sequence.
 func (s *c03State) step() bool {
 	r, m := s.r, s.m
-	switch r.Intn(25) {
+	switch r.Intn(26) {
 	case 0, 1, 2, 3: // Add
 		t := r.AttrType()
 		n := r.ValueLen(3000)
@@ -627,6 +627,35 @@ func (s *c03State) step() bool {
 
 			return false
 		}
+	case 24: // Build in which a setter fails: a well-formed partial message must remain
+		var setters []stun.Setter
+		var newAttrs []shAttr
+		failAt := r.Intn(4)
+		alias := false
+		for k := 0; k < failAt; k++ {
+			t, v := r.AttrType(), r.Bytes(r.ValueLen(100))
+			if t == 0x8020 {
+				alias = true
+			}
+			setters = append(setters, stun.RawAttribute{Type: stun.AttrType(t), Value: v})
+			newAttrs = append(newAttrs, shAttr{typ: t, wire: t, val: v, built: true})
+		}
+		switch r.Intn(3) {
+		case 0:
+			setters = append(setters, stun.NewUsername(string(r.Bytes(600))))
+		case 1:
+			setters = append(setters, stun.XORMappedAddress{IP: net.IP{1, 2, 3}, Port: 1})
+		default:
+			setters = append(setters, stun.ErrorCode(299))
+		}
+		setters = append(setters, stun.NewSoftware("never applied"))
+		s.op(fmt.Sprintf("Build(%d setters, then a failing one)", failAt))
+		if err := m.Build(setters...); err == nil {
+			s.fail("build", "Build succeeded although a setter must fail")
+
+			return false
+		}
+		s.attrs, s.lead, s.trail, s.aliasAdded = newAttrs, 0, false, alias
 	default: // WriteLength / WriteType / WriteTransactionID are idempotent on a consistent message
 		s.op("WriteLength+WriteTransactionID")
 		m.WriteLength()
